@@ -1,5 +1,6 @@
 """c17 — determinism: order-irrelevance theorems; byte comparison of repeated runs and -file subsets."""
 import alias_common
+import corpus_common
 import gen_common
 import gen_modes
 
@@ -11,4 +12,5 @@ def run(chk):
     chk.recheck_proofs()
     alias_common.apply(chk, 200 if chk.tier == "quick" else 40000)
     gen_modes.apply(chk, PID)
+    corpus_common.apply(chk, PID)
     chk.assumptions += gen_common.ASSUMPTIONS + ["absence of state shared between the files of a package (fresh compiler and generator per file) is observed by byte comparison, not proved"]
